@@ -86,6 +86,12 @@ impl Scene for S {
             Cause::TimeoutFail(_) => v[0].work.push((SLOW_MSG, Work { sleep: 5, ..Work::default() })),
             _ => {}
         }
+        if self.pid == "C06" {
+            // borrowed by C06: a child that "dies on its own" crashes (its handler panics)
+            for n in self.nodes.iter().filter(|n| n.outside_stops) {
+                v[n.role as usize].work.push((PANIC_MSG, Work { panic: true, ..Work::default() }));
+            }
+        }
         if let Some((ty, id)) = self.slow_stop {
             for n in &self.nodes {
                 if !self.children_of(n.role).is_empty() {
@@ -172,7 +178,9 @@ impl Scene for S {
         let mut c = 2u8;
         for n in self.nodes.iter().filter(|n| n.outside) {
             let h = Handles::with_addr(addrs[n.role as usize].clone().unwrap());
-            let ops = if n.outside_stops {
+            let ops = if n.outside_stops && self.pid == "C06" {
+                vec![Op::Send(H::Addr(0), PANIC_MSG), Op::Sleep(8), Op::Drop(H::Addr(0))]
+            } else if n.outside_stops {
                 vec![Op::Stop(H::Addr(0)), Op::Sleep(8), Op::Drop(H::Addr(0))]
             } else {
                 vec![Op::Sleep(8), Op::Call(H::Addr(0), 900 + n.role as u32), Op::Drop(H::Addr(0))]
@@ -294,7 +302,7 @@ impl Scene for S {
         // (send_to_children is C16's own subject: a scene borrowed by another property only
         // reports the lifetime clauses)
         let none: Vec<(u8, u32)> = vec![];
-        for (ty, id) in (if pid == "C16" { &self.bcasts } else { &none }).iter().chain(goodbye.iter()) {
+        for (ty, id) in (if pid == "C16" || pid == "C06" { &self.bcasts } else { &none }).iter().chain(goodbye.iter()) {
             let delivered_by_root = an.exit_of_msg(0, *id).is_some() || goodbye == Some((*ty, *id));
             for n in self.nodes.iter().filter(|n| n.parent.is_some()) {
                 let got = an.enters.iter().filter(|e| e.a == n.role && e.cb == (Cb::Bcast { ty: *ty, id: *id })).count();
